@@ -446,6 +446,35 @@ def repair_then_append(offsets=(10, 9, 12, 20)):
     return False, "\n".join(["(offsets tried: %s)" % (list(offsets),)] + text)
 
 
+def relog_window():
+    """one session, two committers (harness command `e2 relogwin`): committer A's batch does not fit the active memtable; inside
+    `apply` it rotates the memtable and the WAL and wakes the flush, and is parked right there (yield point apply.woke), BEFORE it
+    logs its batch again in the new segment.  The rotated memtable is flushed and the manifest switches to log_number = old
+    segment + 1: A's only record now lies in a segment recovery ignores.  Committer B commits one key with immediate durability
+    (record in the new segment).  Process crash (copy of the directory).  Reopen: B is there, A — earlier in the commit order — is not."""
+    d = os.path.join(BASE, "relogwin")
+    shutil.rmtree(d, ignore_errors=True)
+    os.makedirs(os.path.join(d, "db"))
+    img = os.path.join(d, "img")
+    s1 = ["e2 newat %s/db" % d, "e2 open lc=2,mem=8192", "e2 begin 1 rw", "e2 set 1 6101 rep:3000:1", "e2 set 1 6102 rep:3000:2", "e2 commitsync 1",
+          "e2 relogwin 2 2500 %s" % img]
+    out = C.run_pairs([s1], sides=("impl",), timeout=120)[0]["impl"][0]
+    ans = out[-1] if out else "no-answer"
+    text = ["session 1 (options lc=2,mem=8192): txn1 {6101,6102 = 3000 bytes each} acknowledged; `e2 relogwin 2 2500`: " + ans]
+    if "parked=true" not in ans or "flushed=true" not in ans or "image=true" not in ans:
+        shutil.rmtree(d, ignore_errors=True)
+        return False, "\n".join(text + ["   the window was not reached (not reproduced)"])
+    s2 = ["e2 newat %s" % img, "e2 open lc=2,mem=8192", "e2 begin 9 ro", "e2 scan 9 - ~ f"]
+    out2 = C.run_pairs([s2], sides=("impl",), timeout=120)[0]["impl"][0]
+    res = (out2[1] if len(out2) > 1 else "no-answer"), (out2[3] if len(out2) > 3 else str(out2))
+    text.append("session 2 (the crash image): open = %s, scan = %s" % (res[0], res[1][:300]))
+    hit = res[0] == "ok" and "623030=" in res[1] and "613030=" not in res[1]
+    text.append("   committer B's key (623030) is recovered, committer A's keys (613030, 613031; earlier in the commit order) are not: not a prefix of the commit order" if hit else "   (not reproduced)")
+    text += ["# scripts:", "#  session 1: " + " ; ".join(s1[1:]), "#  session 2: " + " ; ".join(s2[1:])]
+    shutil.rmtree(d, ignore_errors=True)
+    return hit, "\n".join(text)
+
+
 SCENARIOS = {
     # class name -> (property or properties, scenario); the two recovery-in-pieces scenarios are crashes INSIDE recovery:
     # they lose an acknowledged commit (C02), leave a state that is no prefix (C03) and make two opens differ (C07)
@@ -454,6 +483,7 @@ SCENARIOS = {
     "vlog_rotated_file_not_fsynced": ("C02", vlog_rotated),
     "acks_behind_torn_first_record_lost": ("C02", torn_first),
     "flush_before_relog_part_of_txn": ("C03", relog_race),
+    "flush_before_relog_window": ("C03", relog_window),
     "empty_vlog_file_gets_no_header": ("C07", vlog_header),
     "torn_vlog_file_blocks_reopen": ("C07", vlog_torn_header),
     "torn_header_tail_not_cut": (("C02", "C03"), torn_header_tail),
